@@ -12,7 +12,7 @@ import tempfile
 import c03_lock_ast as T
 
 LOCKED = ["MSetItem", "MGetItem", "MGet", "MDelItem", "MPop", "MPopItem", "MClear", "MSetDefault",
-          "MUpdate", "MIor", "MEq", "MCopy", "MLen", "MContains"]
+          "MUpdate", "MIor", "MEq", "MCopy", "MLen", "MContains", "MOr", "MRor", "MRepr"]
 
 
 def covered(ctor, methods):
@@ -49,7 +49,8 @@ def perturbations(src):
                          ("clear", "    def clear(self):"), ("len", "    def __len__(self):"),
                          ("contains", "    def __contains__(self, key):"), ("copy", "    def copy(self):"),
                          ("setdefault", "    def setdefault(self, key, default=None):"),
-                         ("update", "    def update(self, E, **F):"), ("eq", "    def __eq__(self, other):")]:
+                         ("update", "    def update(self, E, **F):"), ("eq", "    def __eq__(self, other):"),
+                         ("or", "    def __or__(self, other):"), ("repr", "    def __repr__(self):")]:
         ps.append(("no lock in " + name, lambda s, h=header: _dedent_with(s, h)))
     ps.append(("no lock in LRU.__getitem__", lambda s: _dedent_with(s, "    def __getitem__(self, key):", "class LRU(LRI):")))
     ps.append(("plain Lock", lambda s: s.replace("from threading import RLock", "from threading import Lock as RLock")))
